@@ -953,7 +953,11 @@ def reserved_keys(R):
 def _child_loop(qin, qout):
     torch.set_num_threads(1)
     while True:
-        item = qin.get()
+        try:
+            item = qin.get()
+        except Exception as e:  # noqa: BLE001 -- unpickling in the child raised: that IS the observation
+            qout.put((None, "raise", type(e).__name__ + ": " + str(e)[:160]))
+            continue
         if item is None:
             return
         tag, td = item
